@@ -312,6 +312,36 @@ theorem C14_view_shallow (a : AnyView) (m : Mem) (x y : Nat) (p : List Nat)
   refine ⟨rfl, C14_write_read a.2 m x y p hks hp, ?_⟩
   simp [AnyView.beq]
 
+
+private theorem apply_ns (f : Xf) (hf : ∀ n, f ≠ .nth n) {t : Tag} (v : View t) : (f.apply v).ns = v.ns := by
+  cases f <;> first | rfl | (exact absurd rfl (hf _)) | (simp only [Xf.apply]; split <;> rfl)
+
+private theorem write_congr {t1 t2 : Tag} (v1 : View t1) (v2 : View t2) (m : Mem) (x1 y1 x2 y2 : Nat) (p : List Nat)
+    (hn : v1.ns = v2.ns) (hc : ∀ k, v1.cell x1 y1 k = v2.cell x2 y2 k) :
+    v1.write m x1 y1 p = v2.write m x2 y2 p := by
+  unfold View.write
+  rw [hn]
+  congr 1
+  funext m' k
+  rw [hc k]
+
+/-- a lifted geometric transformation is a VIEW: a pixel stored through the transformed view is stored in the
+    held view at the documented coordinate (and nowhere else, by the frame theorems) -/
+theorem C14_lift_write_through (f : Xf) (hf : ∀ n, f ≠ .nth n) {t : Tag} (v : View t)
+    (m : Mem) (x y : Nat) (p : List Nat) (hx : x < (f.apply v).w) (hy : y < (f.apply v).h)
+    (hks : v.ks ≠ 0) (hp : p.length = v.ns) :
+    v.raw ((f.lift (wrap v)).2.write m x y p) (f.phi v.w v.h x y).1 (f.phi v.w v.h x y).2 = p := by
+  have hcell : ∀ k, (f.apply v).cell x y k = v.cell (f.phi v.w v.h x y).1 (f.phi v.w v.h x y).2 k := by
+    intro k
+    have h := C14_lift_cell f v x y k hx hy
+    cases f <;> first | (exact absurd rfl (hf _)) | (exact h)
+  show v.raw ((f.apply v).write m x y p) _ _ = p
+  rw [write_congr (f.apply v) v m x y _ _ p (apply_ns f hf v) hcell]
+  exact C14_write_read v m _ _ p hks hp
+
+/-- lifted transformations compose like the concrete ones -/
+theorem C14_lift_compose (f g : Xf) {t : Tag} (v : View t) : f.lift (g.lift (wrap v)) = wrap (f.apply (g.apply v)) := rfl
+
 /-! ### images -/
 
 private theorem lin_lt {x y w h : Nat} (hx : x < w) (hy : y < h) : y * w + x < w * h := by
@@ -351,6 +381,69 @@ theorem C14_copy_deep (a : AnyImage) (hp : Heap) (hfit : a.2.base + a.2.size ≤
   have : ((a.2.base + a.2.size : Nat) : Int) ≤ hp.next := by exact_mod_cast hfit
   push_cast at this
   omega
+
+
+private theorem decode_interleaved {f : Fmt} (ho : f.org ≠ .planar) (w h x y k : Nat) (hx : x < w) (hk : k < f.nc) :
+    decodeCell f w h ((y * w + x) * f.nc + k) = (x, y, k) := by
+  have hnc : 0 < f.nc := by omega
+  have hw : 0 < w := by omega
+  have e1 : ((y * w + x) * f.nc + k) / f.nc = y * w + x := by
+    rw [Nat.mul_comm, Nat.mul_add_div hnc, Nat.div_eq_of_lt hk]; rfl
+  have e2 : ((y * w + x) * f.nc + k) % f.nc = k := by rw [Nat.mul_comm, Nat.mul_add_mod, Nat.mod_eq_of_lt hk]
+  have e3 : (y * w + x) % w = x := by rw [Nat.mul_comm, Nat.mul_add_mod, Nat.mod_eq_of_lt hx]
+  have e4 : (y * w + x) / w = y := by rw [Nat.mul_comm, Nat.mul_add_div hw, Nat.div_eq_of_lt hx]; rfl
+  unfold decodeCell
+  cases ho' : f.org <;> simp_all
+
+private theorem decode_planar {f : Fmt} (ho : f.org = .planar) (w h x y k : Nat) (hx : x < w) (hy : y < h) :
+    decodeCell f w h (k * (w * h) + (y * w + x)) = (x, y, k) := by
+  have hl := lin_lt hx hy
+  have hwh : 0 < w * h := by omega
+  have hw : 0 < w := by omega
+  have e1 : (k * (w * h) + (y * w + x)) % (w * h) = y * w + x := by
+    rw [Nat.mul_comm, Nat.mul_add_mod, Nat.mod_eq_of_lt hl]
+  have e2 : (k * (w * h) + (y * w + x)) / (w * h) = k := by
+    rw [Nat.mul_comm, Nat.mul_add_div hwh, Nat.div_eq_of_lt hl]; rfl
+  have e3 : (y * w + x) % w = x := by rw [Nat.mul_comm, Nat.mul_add_mod, Nat.mod_eq_of_lt hx]
+  have e4 : (y * w + x) / w = y := by rw [Nat.mul_comm, Nat.mul_add_div hw, Nat.div_eq_of_lt hx]; rfl
+  unfold decodeCell
+  simp only [ho, e1, e2, e3, e4]
+
+private theorem newImage_get (hp : Heap) (f : Fmt) (w h : Nat) (init : Nat → Nat → Nat → Nat) (c : Int) :
+    (hp.newImage f w h init).2.mem.get c =
+      if (hp.next : Int) ≤ c ∧ c < (hp.next : Int) + ((w * h * f.nc : Nat) : Int) then
+        init (decodeCell f w h (c - (hp.next : Int)).toNat).1 (decodeCell f w h (c - (hp.next : Int)).toNat).2.1
+             (decodeCell f w h (c - (hp.next : Int)).toNat).2.2
+      else hp.mem.get c := rfl
+
+/-- a freshly allocated image holds `init x y k` in the cell of channel k of pixel (x,y) -/
+theorem C14_new_image_content (hp : Heap) (f : Fmt) (w h : Nat) (init : Nat → Nat → Nat → Nat) (x y k : Nat)
+    (hx : x < w) (hy : y < h) (hk : k < f.nc) :
+    (hp.newImage f w h init).2.mem.get ((hp.newImage f w h init).1.view.cell x y k) = init x y k := by
+  have hblk := C14_image_cells_in_block (hp.newImage f w h init).1 x y k hx hy hk
+  have hbase : (hp.newImage f w h init).1.base = hp.next := rfl
+  have hsize : (hp.newImage f w h init).1.size = w * h * f.nc := rfl
+  rw [hbase, hsize] at hblk
+  rw [newImage_get, if_pos hblk]
+  by_cases ho : f.org = .planar
+  · have hoff : (hp.newImage f w h init).1.view.cell x y k - (hp.next : Int) = ((k * (w * h) + (y * w + x) : Nat) : Int) := by
+      simp only [Image.view, Heap.newImage, ho, View.cell]; push_cast; ring
+    rw [hoff, Int.toNat_natCast, decode_planar ho w h x y k hx hy]
+  · have hoff : (hp.newImage f w h init).1.view.cell x y k - (hp.next : Int) = (((y * w + x) * f.nc + k : Nat) : Int) := by
+      simp only [Image.view, Heap.newImage, View.cell]
+      cases ho' : f.org <;> simp_all <;> (push_cast; ring)
+    rw [hoff, Int.toNat_natCast, decode_interleaved ho w h x y k hx hk]
+
+/-- the copy of an any_image holds, pixel for pixel and channel for channel, the values of the original -/
+theorem C14_copy_deep_content (a : AnyImage) (hp : Heap) (x y k : Nat) (hx : x < a.2.w) (hy : y < a.2.h) (hk : k < a.1.nc) :
+    (a.copy hp).2.mem.get ((a.copy hp).1.2.view.cell x y k) = hp.mem.get (a.2.view.cell x y k) := by
+  exact C14_new_image_content hp a.1 a.2.w a.2.h (fun x y k => hp.mem.get (a.2.view.cell x y k)) x y k hx hy hk
+
+/-- storage that existed before the copy is not modified by it -/
+theorem C14_copy_keeps_old_cells (a : AnyImage) (hp : Heap) (c : Int) (hc : c < hp.next) :
+    (a.copy hp).2.mem.get c = hp.mem.get c := by
+  simp only [AnyImage.copy]
+  rw [newImage_get, if_neg (by omega)]
 
 /-- recreate keeps the held type (and therefore the index in any type list) and sets the new dimensions -/
 theorem C14_recreate_keeps_type (a : AnyImage) (w h : Nat) (hp : Heap) (L : List Fmt) :
@@ -397,5 +490,31 @@ theorem C14_view_of_copy_differs (a : AnyImage) (hp : Heap) (h : a.2.base ≠ hp
     simp only [AnyImage.view, Image.view] at h0
     cases ho : a.1.org <;> simp only [AnyImage.copy, Heap.newImage, ho] at h0 <;> exact_mod_cast h0.symm
   simpa using this
+
+
+/-! ### concrete instances of the hypotheses used above (the theorems are not vacuous) -/
+
+section Examples
+/-- a 3 x 2 rgb8 image at cell 1000 and its view -/
+private def exImg : Image rgb8 := ⟨3, 2, 1000⟩
+private def exHeap : Heap := ⟨⟨fun c => (c % 251).toNat⟩, 2000⟩
+
+example : inContract (.sub 1 0 2 2) exImg.view.w exImg.view.h := by
+  show 1 + 2 ≤ 3 ∧ 0 + 2 ≤ 2; omega
+example : inContract (.subs 2 1) 3 2 := by show 1 ≤ 2 ∧ 1 ≤ 1; omega
+-- rot90cw of the 3 x 2 view is 2 x 3 and its pixel (1,2) is the source pixel (2,0)
+example : (Xf.rot90cw.apply exImg.view).w = 2 ∧ (Xf.rot90cw.apply exImg.view).h = 3 ∧
+    (Xf.rot90cw.apply exImg.view).cell 1 2 0 = exImg.view.cell 2 0 0 := by decide
+-- compatible / incompatible pairs of the representative list
+example : compatible rgb8 bgr8 = true ∧ compatible rgb8 rgb8p = true ∧ compatible rgb8 rgb16 = false ∧
+    compatible g8 g1 = false ∧ compatible rgb8 rgba8 = false := by decide
+-- hypotheses of C14_write_read / C14_view_shallow / C14_lift_write_through on an image view
+example : exImg.view.ks ≠ 0 ∧ [7, 8, 9].length = exImg.view.ns := by decide
+-- hypotheses of C14_copy_deep / C14_view_of_copy_differs
+example : exImg.base + exImg.size ≤ exHeap.next ∧ exImg.base ≠ exHeap.next := by decide
+-- nth_channel_view merges alternatives of L6 (rgb8, bgr8 and rgba8 all give a gray8 step view): the injectivity
+-- hypothesis of C14_index_preserved fails there, and a variant built from the result holds the first such type
+example : (Xf.nth 0).tag (Tag.ofFmt rgb8) = (Xf.nth 0).tag (Tag.ofFmt bgr8) := by decide
+end Examples
 
 end GilVerif.Props.C14
